@@ -24,3 +24,5 @@ import Gaftools.Props.Glue
 #print axioms Gaftools.Glue.parse_render_unstable
 #print axioms Gaftools.Glue.parse_render_ivs
 #print axioms Gaftools.Glue.parse_render_bare
+#print axioms Gaftools.TieA.searchIv_gen_eq_model
+#print axioms Gaftools.TieA.overlapCaseConv_gen_eq_model
